@@ -97,6 +97,7 @@ class Ctx:
         self.scale = scale
         self.hangs = []
         self.abort_chunk = False
+        self.same = None           # label equivalence used when confirming by replay (default: equality)
 
     def thorough(self):
         return self.tier == 'thorough'
@@ -117,23 +118,34 @@ class Ctx:
     def known_hit(self, fid):
         self.rec.known_hits[fid] = self.rec.known_hits.get(fid, 0) + 1
 
-    def report(self, v, replay_fn=None):
-        """Confirm a candidate violation by replaying it 3x; record it (or record it as flaky)."""
+    def report(self, v, replay_fn=None, tries=3, need=3, same=None):
+        """Confirm a candidate violation by replaying it (default: 3 times, all must fail the same way); record it (or
+        record it as flaky).  Schedule-dependent properties pass tries/need (a sanitizer's race report is evidence by
+        itself; the replays only have to reproduce it once) and `same`, the label equivalence."""
         case = v.case
         ok = 0
+        same = same or self.same or (lambda a, b: a == b)
         if replay_fn is not None:
-            for _ in range(3):
+            for _ in range(tries):
                 try:
                     replay_fn(case)
                 except Violation as v2:
-                    if v2.label == v.label:
+                    if same(v2.label, v.label):
                         ok += 1
+                        if ok >= need:
+                            break
                 except Inconclusive:
                     pass
                 except Exception as e:           # harness error during replay: do not count
                     self.rec.notes.append('replay error: %r' % (e,))
-            if ok < 3:
-                self.rec.notes.append('FLAKY-NOT-REPORTED %s (%d/3 replays)' % (v.label, ok))
+            if ok < need:
+                # 0 reproductions of a violation the search did see: the replay path does not do what the search did (or the
+                # engine's answer depends on what ran before in the same process) -- either way the run must not pass silently
+                self.rec.notes.append('%s %s (%d/%d replays)' % ('HARNESS-BUG candidate violation never reproduced on replay:' if ok == 0 else 'FLAKY-NOT-REPORTED', v.label, ok, tries))
+                if ok == 0:
+                    os.makedirs(os.path.join(REPLAY_OUT, self.prop), exist_ok=True)
+                    with open(os.path.join(REPLAY_OUT, self.prop, 'unreproduced-%s.json' % h64(case)[:8]), 'w') as f:
+                        json.dump(dict(property=self.prop, label=v.label, detail=str(v.detail)[:4000], case=case), f, default=str)
                 return False
         os.makedirs(os.path.join(REPLAY_OUT, self.prop), exist_ok=True)
         path = os.path.join(REPLAY_OUT, self.prop, '%s-%s.json' % (h64(v.label)[:8], h64(case)[:8]))
